@@ -36,6 +36,8 @@ CONSTANTS NV,            \* development versions are 1..NV (in cascade order)
           ReportOnce,    \* TRUE: a commit's build status is reported at most once (exhaustive configs)
           MaxLevel,      \* bound on the length of behaviours (state constraint)
           EmitJson,      \* TRUE: carry the JSON projection of each state in `out` (simulation)
+          PruneOnlyOwned,\* FALSE = the code (push --all --prune deletes every remote head the clone does not have);
+                         \* TRUE = an idealised design that only deletes w/ q/ branches (deviation switch)
           AtomicPush,    \* TRUE: named pushes are atomic (repaired code: git push --atomic)
           FixSelect,     \* TRUE: queue selection iterates to a fixpoint (repaired code)
           FixDirect      \* TRUE: no_octopus direct merge merges the w/ branch first (repaired code)
@@ -482,7 +484,7 @@ ApplyPush(g, r, rej, op) ==
 ApplyPushAll(g, r, rej, op) ==     \* git push --all --atomic [--prune]
   LET heads == DOMAIN op.loc
       changed == {n \in heads : n \notin DOMAIN r \/ r[n] # op.loc[n]}
-      gone == IF op.prune THEN DOMAIN r \ heads ELSE {}
+      gone == IF op.prune THEN {n \in DOMAIN r \ heads : ~ PruneOnlyOwned \/ Kind(n) \in {"w", "q", "qw"}} ELSE {}
       ok == (\A n \in changed : Accepts(g, r, rej, n, op.loc[n])) /\ (gone \cap rej = {})
   IN IF ok THEN [refs |-> [n \in heads \cup (DOMAIN r \ gone) |-> IF n \in heads THEN op.loc[n] ELSE r[n]],
                  fail |-> FALSE]
